@@ -287,6 +287,10 @@ def show(v):
     return v.hex() if isinstance(v, bytes) else "%#x" % v
 
 
+def showc(v):
+    return v.hex() if isinstance(v, bytes) else "(%#x, %#x)" % v
+
+
 def scalar_case(ctx, st, x, lines, expect, oracle_only=False):
     case = {"kind": "scalar", "x": x}
     reg = region(x)
@@ -352,8 +356,8 @@ def complex_case(ctx, st, re, im, size, slot, lines, expect, oracle_only=False):
     bad = [k for k in exp if obs[k] != exp[k]]
     if bad:
         k = bad[0]
-        ctx.fail(case, "%s (%#x, %#x) via %s: cffi has %r, storing each part with the C conversion gives %r"
-                 % (T, re, im, k, obs[k], exp[k]))
+        ctx.fail(case, "%s (%#x, %#x) via %s: cffi has %s, storing each part with the C conversion gives %s"
+                 % (T, re, im, k, showc(obs[k]), showc(exp[k])))
     if not oracle_only:
         lines.append("cplx %d %d %d %d %d" % (size, size * slot, 3 * size, re, im))
         expect.append((case, "ok %s %d %d" % (obs["item"].hex(), obs["item-read"][0], obs["item-read"][1]),
